@@ -330,6 +330,23 @@ func extractC15() *lean {
 		})
 	}
 	l.def("extractCertificateIndex", "String", fmt.Sprintf("%q", certIdx), certIdx)
+	var certRets []string
+	certLoops := 0
+	if fd := funcDecl(cmf, "extractCertificate"); fd != nil {
+		ast.Inspect(fd, func(n ast.Node) bool {
+			switch x := n.(type) {
+			case *ast.ReturnStmt:
+				for _, r := range x.Results {
+					certRets = append(certRets, c15Src(r))
+				}
+			case *ast.RangeStmt, *ast.ForStmt:
+				certLoops++
+			}
+			return true
+		})
+	}
+	l.def("extractCertificateReturns", "List String", leanStrList(certRets), certRets)
+	l.def("extractCertificateLoops", "Nat", fmt.Sprint(certLoops), certLoops)
 
 	// dag/pal.go PAL.Encrypt: `continue` statements (a skipped participant), the checks inside the recipient loop and whether
 	// each returns an error
